@@ -76,6 +76,52 @@ def mk(n, tables=True, tag='ab', q0=0.1, xf=False, shift=0.0, cell=20.0, dup=Fal
     return Atoms(**kw)
 
 
+def scribble(x):
+    """supported in-place operations a user may perform on an Atoms object *after* it was handed to / returned from the
+    library: translate, delete the first atom, pop the last, extend by a foreign bonded pair.  (No element-wise writes into
+    the arrays: the properties speak about the library's operations only.)  Failures are ignored - the point is only what
+    these operations do to *other* objects."""
+    call(x.translate, np.array([0.37, -0.21, 0.13]))
+    if len(x.atom_types):
+        call(x.__delitem__, [0])
+    if len(x.atom_types):
+        call(x.pop)
+    f = Atoms(elements=['He', 'Ne'], positions=[(9.0, 9.0, 9.0), (9.5, 9.0, 9.0)], bonds=[(0, 1)], bond_types=[0], charges=[0.25, -0.25], groups=[6, 6])
+    call(x.extend, f)
+    call(x.translate, np.array([-0.11, 0.05, 0.5]))
+
+
+def alias_probe(new, others, what_new='the result'):
+    """`new` was just produced from / extended by the objects in `others` = [(name, real Atoms)].  Later supported operations on
+    one must not change another.  Destroys all objects; returns a list of messages."""
+    msgs = []
+    s_new = raw_state(new)
+    for name, o in others:
+        scribble(o)
+        if raw_state(new) != s_new:
+            d = [i for i, (x, y) in enumerate(zip(s_new, raw_state(new))) if x != y]
+            msgs.append('operating on %s afterwards (translate, delete, pop, extend) changed %s (raw-state fields %r): the two share data' % (name, what_new, d[:6]))
+            s_new = raw_state(new)
+    s_others = [raw_state(o) for _, o in others]
+    scribble(new)
+    for (name, o), so in zip(others, s_others):
+        if raw_state(o) != so:
+            d = [i for i, (x, y) in enumerate(zip(so, raw_state(o))) if x != y]
+            msgs.append('operating on %s afterwards (translate, delete, pop, extend) changed %s (raw-state fields %r): the two share data' % (what_new, name, d[:6]))
+    return msgs
+
+
+def untouched(before, objs):
+    """[(name, obj)] whose raw state differs from the recorded one -> messages"""
+    out = []
+    for (name, o), b in zip(objs, before):
+        now = raw_state(o)
+        if now != b:
+            d = [i for i, (x, y) in enumerate(zip(b, now)) if x != y]
+            out.append('%s was modified by the call (raw-state fields %r)' % (name, d[:6]))
+    return out
+
+
 def ordered_subsets(n):
     for r in range(1, n + 1):
         for S in itertools.combinations(range(n), r):
